@@ -26,7 +26,8 @@ Sources   == {"cookie", "bearer", "xbearer", "basic", "form", "none_bypass", "no
 Endpoints == {"protected", "authonly", "authonly_q", "userinfo", "callback", "start", "sign_in_get", "sign_in_post", "sign_out", "static", "ready", "odd_target"}
 CookieShapes == {"asis", "garbage", "short", "overlong", "stray_parts", "empty_value", "dup", "nul_bytes"}
 AuthShapes   == {"asis", "bearer_junk", "bearer_jwtlike", "basic_badb64", "basic_nocolon", "three_fields", "empty", "only_scheme"}
-StateShapes  == {"asis", "absent", "short", "nocolon", "badb64", "long", "percent"}
+\* blanks: white space (blanks, tabs, line ends) around and inside a nonce part of borderline length
+StateShapes  == {"asis", "absent", "short", "nocolon", "badb64", "long", "percent", "blanks"}
 FwdShapes    == {"none", "comma", "empty", "bracket", "unknown", "hostport_bad", "many", "v6zone"}
 QueryShapes  == {"asis", "domains_only", "emails_only", "groups_only", "all_three", "empty_items", "semicolons", "bad_escape"}
 
